@@ -37,7 +37,10 @@ TRUSTED = ["is_single_peaked (Escoffier-Lang-Ozturk) is MIRRORED statement by st
            "Python function behaves like the mirror - checked on every case of every run (verdict equal at every size; "
            "the returned axis is additionally sent through the verified checker and compared with the mirror's axis as a "
            "statistic); flatten_strict is exercised through it"]
-ASSUMPTIONS = ["data_type = soc, every order ranks every alternative exactly once, >= 1 order, orders distinct "
+ASSUMPTIONS = ["ids are arbitrary Python ints (negative ones included); the model works on N, so a profile with negative ids is "
+               "sent to the oracle relabelled by the injective shift id -> id - min id (sound: sp_decide_relabel, "
+               "spw_decide_relabel; witnesses are shifted the same way before the checker)",
+               "data_type = soc, every order ranks every alternative exactly once, >= 1 order, orders distinct "
                "(quantifier of C03)"]
 COVER_FILES = ['properties/subdomains/ordinal/singlepeaked/singlepeakedness.py']
 TIMEOUT_S = 30.0
@@ -107,6 +110,21 @@ def find_cores(rng, alts, rankings, extra=4):
         for _ in range(extra):
             cores.append(rng.sample(alts, 4))
     return cores
+
+
+def _shift(x, off):
+    """ids are arbitrary integers for the implementation; the model works on N: every id is sent as id + off
+    (off = -min id when negative ids occur) - an injective relabelling, under which the reference, the mirror and the
+    checker are invariant (sp_decide_relabel / spw_decide_relabel; the mirror compares ids only for equality)"""
+    if off == 0:
+        return x
+    if isinstance(x, list):
+        return [_shift(y, off) for y in x]
+    return x + off
+
+
+def _off(alts):
+    return max(0, -min(alts)) if alts else 0
 
 
 def rounds_pattern(rankings):
@@ -254,7 +272,8 @@ def history_build(phases, maint, how):
 def _hist_profile(rng, m, kind, ids=None):
     """(alts, phases, maint, how): kind 'sp' planted, 'noise' planted + a random vote, '2d' two opposite monotone voters
     (+ planted ones): the run ends in case 2.(d) of the elimination"""
-    alts = ids if ids is not None else rng.sample(range(0, rng.choice([m, 30, 1000])), m)
+    lo_ = rng.choice([0, 0, -1, -m])
+    alts = ids if ids is not None else rng.sample(range(lo_, lo_ + rng.choice([m, 30, 1000])), m)
     axis = rand_perm(rng, alts)
     votes = [(conitzer if rng.random() < 0.5 else walsh)(rng, axis) for _ in range(rng.randint(2, 5))]
     if kind == "2d":
@@ -331,11 +350,13 @@ def _hist_plan(c, r):
     for k, (alts, phases, maint, how) in enumerate(c["payload"][0]):
         orders, mults = history_expected(phases)
         rankings = [[cl[0] for cl in o] for o in orders]
-        plan.append((("elo", k), "c03.elo", [alts, rankings]))
+        off = _off(alts)
+        plan.append((("elo", k), "c03.elo", _shift([alts, rankings], off)))
         if isinstance(r, list) and k < len(r):
             for j, a in enumerate(r[k]["asks"]):
                 if a[0][0] == 0 and a[0][1] == 1:
-                    plan.append((("axis", k, j), "c03.check_axis", [alts, rankings, a[0][2]]))
+                    plan.append((("axis", k, j), "c03.check_axis",
+                                 _shift([alts, rankings, [x for x in a[0][2] if x + off >= 0]], off)))
     return plan
 
 
@@ -404,6 +425,22 @@ def generate(tier, seed):
             v = relabel(idmap, sub)
             add(ids, v, exh=1, ids=1)
             add(ids, v[::-1], exh=1, ids=1, rev=1)
+
+    # ---- the exhaustive small block again with ids shifted by -2 (ids -1..m-2) and by -(m+1) (ids -m..-1)
+    for m in (2, 3):
+        base = list(range(1, m + 1))
+        pm = list(itertools.permutations(base))
+        for sh in (-2, -(m + 1)):
+            for k in range(1, len(pm) + 1):
+                for sub in itertools.combinations(pm, k):
+                    add([a + sh for a in base], [[a + sh for a in r_] for r_ in sub], exh=1, neg=1)
+    for sh in (-2, -5):
+        for sub in itertools.combinations(perms, 2):
+            add([a + sh for a in alts], [[a + sh for a in r_] for r_ in sub], exh=1, neg=1)
+            add([a + sh for a in alts], [[a + sh for a in r_] for r_ in sub[::-1]], exh=1, neg=1, rev=1)
+        for sub in itertools.combinations(perms, 3):
+            if rng.random() < 0.3:
+                add([a + sh for a in alts], [[a + sh for a in r_] for r_ in sub], exh=0, neg=1)
 
     # ---- every 2-voter profile over 4 alternatives plus one common bottom, e.g. (0,1,2,3,9),(3,2,1,0,9)
     idmap = dict(zip(alts, [0, 1, 2, 3]))
@@ -555,7 +592,8 @@ def generate(tier, seed):
     while i < nvol or made_alt < nalt:
         m = rng.randint(7, 10)
         n = rng.choice([2, 2, 3])
-        alts_v = rng.sample(range(0, rng.choice([m, 30, 10 ** 6])), m)
+        lo_ = rng.choice([0, 0, 0, -1, -m, -m // 2, -10 ** 6])          # negative / mixed-sign / large negative ids
+        alts_v = rng.sample(range(lo_, lo_ + rng.choice([m, 30, 10 ** 6])), m)
         axis = rand_perm(rng, alts_v)
         g = i % 3
         if g == 0:
@@ -652,6 +690,7 @@ def oracle_requests(c, r):
     if c["op"] == "c03.hist":
         return [(o_, p_) for _, o_, p_ in _hist_plan(c, r)]
     alts, rankings, mults, mode, cores = c["payload"]
+    off = _off(alts)
     reqs = []
     if mode == 1:
         reqs.append(("c03.decide", [alts, rankings]))
@@ -659,9 +698,9 @@ def oracle_requests(c, r):
         a2, r2 = _restrict(S, alts, rankings)
         reqs.append(("c03.decide", [a2, r2]))
     if isinstance(r, list) and r[0] == 0 and r[1] == 1:
-        reqs.append(("c03.check_axis", [alts, rankings, r[2]]))
+        reqs.append(("c03.check_axis", [alts, rankings, [a for a in r[2] if a + off >= 0]]))
     reqs.append(("c03.elo", [alts, rankings]))          # the mirror of the algorithm, always last
-    return reqs
+    return [(o_, _shift(p_, off)) for o_, p_ in reqs]
 
 
 def expected(c, mres):
@@ -763,7 +802,9 @@ def stats(c, r, m):
     if isinstance(r, list) and r[0] == 0 and me[0] == 0:
         lab.append("mirror verdict compared %s" % ("(large)" if mode == 0 else "(small)"))
         if r[1] == 1 and me[1][0] == 1:
-            lab.append("mirror axis identical" if me[1][1] == r[2] else "mirror axis DIFFERS (not an alarm)")
+            lab.append("mirror axis identical" if me[1][1] == _shift(r[2], _off(alts)) else "mirror axis DIFFERS (not an alarm)")
+    if min(alts) < 0:
+        lab.append("negative ids")
     verdict = "SP" if exp == 1 else ("notSP" if exp == 0 else "unknown")
     d = common_bottom_depth(rankings)
     if d >= 1 and len(rankings) >= 2 and mm >= 3:
